@@ -278,8 +278,9 @@ pub fn typed_on<'a, B: BumpAllocatorTypedScope<'a> + ?Sized, T: Pod>(bump: &B, r
             // allocate a box and give it straight back with `dealloc`
             match bump.try_alloc_slice_copy(&src) {
                 Ok(bx) => {
+                    let bytes = std::mem::size_of_val::<[T]>(&bx);
                     bump.dealloc(bx);
-                    TypedRes::Nothing
+                    TypedRes::Nothing { bytes, inert_dealloc: false }
                 }
                 Err(_) => TypedRes::Failed,
             }
@@ -450,7 +451,10 @@ where
         }
         _ => {
             let w = WithoutDealloc(&*s);
-            typed_on::<_, [u8; 3]>(&w, &r)
+            match typed_on::<_, [u8; 3]>(&w, &r) {
+                TypedRes::Nothing { bytes, .. } => TypedRes::Nothing { bytes, inert_dealloc: true },
+                other => other,
+            }
         }
     }
 }
